@@ -311,14 +311,7 @@ def oracle_run(case: dict, res: dict) -> T.List[T.Tuple[str, str]]:
         dur, rc, out = behaviour(case, i, it)
         to = eff_timeout(t)
         if k not in results:
-            # known defect class: the process had already ended and --maxfail cancelled the run at that very
-            # moment, while the output was still being collected
-            if k in ended and maxfail > 0 and nbad_total >= maxfail and end_time.get(k, -1) in cut_times:
-                bad.append(('KNOWN:lost-result-on-maxfail-cancel',
-                            f'test {i} iteration {it} ended at t={end_time[k]} but --maxfail cancelled the run at that '
-                            'moment and its result was never reported'))
-            else:
-                bad.append(('not-reported', f'test {i} iteration {it} started but no result was reported'))
+            bad.append(('not-reported', f'test {i} iteration {it} started but no result was reported'))
             continue
         got, grc = results[k]
         how = ended.get(k)
@@ -1011,11 +1004,7 @@ def e2e_oracle(proj: dict, opts: dict, p: subprocess.CompletedProcess, loglines:
     nbad = sum(1 for r in results.values() if r in BAD)
     cut_allowed = (maxfail > 0 and nbad >= maxfail) or (R > 1 and nbad >= 1)
     for k in notrep:
-        if maxfail > 0 and nbad >= maxfail and k in ended:
-            bad.append(('KNOWN:lost-result-on-maxfail-cancel', f'test {k[0]} iteration {k[1]} ended but --maxfail '
-                        'cancelled the run before its result was reported'))
-        else:
-            bad.append(('not-reported', f'test {k[0]} iteration {k[1]} started but is not in testlog.json'))
+        bad.append(('not-reported', f'test {k[0]} iteration {k[1]} started but is not in testlog.json'))
     missing = [(i, it) for it in range(R) for i in sel if (i, it) not in started and (i, it) not in results]
     if missing and not cut_allowed:
         bad.append(('not-started', f'selected tests never started although the run was not cut short: {missing[:6]}'))
@@ -1029,6 +1018,88 @@ def e2e_oracle(proj: dict, opts: dict, p: subprocess.CompletedProcess, loglines:
     if p.returncode != want_exit:
         bad.append(('exit-status', f'exit status {p.returncode} with {nbad} bad results'))
     return bad
+
+
+RACE_A = r'''#!/usr/bin/env python3
+import os, signal, sys, time
+flag, n, k = sys.argv[1], int(sys.argv[2]), int(sys.argv[3])
+def term(sig, frm):
+    buf = []
+    for i in range(1, n + 1):
+        buf.append('ok %d\n' % i)
+        if len(buf) == 500:
+            os.write(1, ''.join(buf).encode()); buf = []
+        if i == n - k:
+            if buf:
+                os.write(1, ''.join(buf).encode()); buf = []
+            open(flag, 'w').close()
+    if buf:
+        os.write(1, ''.join(buf).encode())
+    os._exit(0)
+signal.signal(signal.SIGTERM, term)
+os.write(1, ('1..%d\n' % n).encode())
+time.sleep(60)
+'''
+RACE_B = r'''#!/usr/bin/env python3
+import os, sys, time
+flag = sys.argv[1]
+while not os.path.exists(flag):
+    time.sleep(0.0002)
+os._exit(1)
+'''
+
+
+def e2e_cancel_race(ctx: Ctx, runs: int) -> None:
+    """regression for the (repaired) lost-result defect with the real command: TAP test `a` (timeout 1) floods its
+    output while it is being terminated; test `b` fails at that moment, so `--maxfail 1` cancels the run while `a` is
+    being killed / collected.  `a` was started, so it must be reported."""
+    base = common.scratch_dir('mverif-c12r-')
+    try:
+        src, bld = os.path.join(base, 'src'), os.path.join(base, 'b')
+        os.makedirs(src)
+        flag = os.path.join(base, 'flag')
+        open(os.path.join(src, 'a.py'), 'w').write(RACE_A)
+        open(os.path.join(src, 'b.py'), 'w').write(RACE_B)
+        for i in range(runs):
+            k = [1000, 0, 3000][i % 3]
+            open(os.path.join(src, 'meson.build'), 'w').write(
+                "project('p')\npy = find_program('%s')\n"
+                "test('a', py, args: [files('a.py'), '%s', '20000', '%d'], protocol: 'tap', timeout: 1)\n"
+                "test('b', py, args: [files('b.py'), '%s'])\n" % (sys.executable, flag, k, flag))
+            common.rmtree(bld)
+            p = meson_cmd(['setup', '--backend=none', bld, src], base)
+            if p.returncode != 0:
+                raise common.ToolFailure('meson setup failed: ' + p.stdout[-600:])
+            if os.path.exists(flag):
+                os.unlink(flag)
+            p = meson_cmd(['test', '--no-rebuild', '-C', bld, '--maxfail', '1', '--num-processes', '2'], base)
+            jl = {}
+            jpath = os.path.join(bld, 'meson-logs', 'testlog.json')
+            if os.path.exists(jpath):
+                for line in open(jpath, encoding='utf-8'):
+                    if line.strip():
+                        j = json.loads(line)
+                        jl[j['name'].split(':')[-1]] = j['result']
+            ctx.count()
+            ctx.tag('e2e:cancel-race')
+            from .c12_inproc import parse_summary
+            ps = parse_summary(p.stdout)
+            case = {'stream': 'e2e-cancel-race', 'k': k, 'testlog': jl, 'printed': ps, 'exit': p.returncode}
+            if not os.path.exists(flag):
+                continue        # `a` never got as far as being terminated (machine too slow): nothing to judge
+            if 'a' not in jl:
+                ctx.violation('e2e:not-reported:cancel-race', 'test a (TAP, timeout 1) was started and terminated at its '
+                              'limit while --maxfail 1 cancelled the run, but it is neither in testlog.json nor in the '
+                              f'totals: testlog.json {jl}, printed {ps}', case)
+            elif jl['a'] not in ('TIMEOUT', 'INTERRUPT'):
+                ctx.violation('e2e:misclassified:cancel-race', f'test a exceeded its limit but is reported {jl["a"]}', case)
+            tally = {k2: 0 for k2 in COUNT_KEYS}
+            for r in jl.values():
+                tally[GROUP.get(r, 'ok')] += 1
+            if {k2: ps.get(k2, 0) for k2 in COUNT_KEYS} != tally:
+                ctx.violation('e2e:printed-totals:cancel-race', f'printed totals {ps} differ from testlog.json {jl}', case)
+    finally:
+        common.rmtree(base)
 
 
 def e2e_stream(ctx: Ctx, nproj: int, nruns: int) -> None:
@@ -1170,6 +1241,7 @@ def run(ctx: Ctx) -> None:
         common.rmtree(base)
     ctx.extra['traces_validated_against_impl'] = ctx.extra.get('traces_validated_against_impl', 0) + validated
     e2e_stream(ctx, ctx.scale(1, 10), ctx.scale(3, 7))
+    e2e_cancel_race(ctx, ctx.scale(2, 6))
     ctx.exhaustive = False
     if os.environ.get('VERIF_C12_DEBUG'):
         for d in ctx.disagreements[:10]:
@@ -1246,6 +1318,9 @@ def replay(ctx: Ctx, rep: dict) -> None:
                 print('model :', ctx.driver('sched', [tl])[0])
         finally:
             common.rmtree(base)
+    elif case.get('stream') == 'e2e-cancel-race':
+        e2e_cancel_race(ctx, 3)
+        print('violations:', [v['what'] for v in ctx.violations])
     elif case.get('stream') == 'classify':
         print('oracle rule:', sorted(o_classify_exit(case['rc'], case['sf'], case.get('ee'))))
         if ctx.model_available:
